@@ -451,6 +451,8 @@ def check_c08(run: Run, prog: Program) -> None:
     # affine embedding: the matrix assembled by affine_transform (and every other buffer assembled by item assignment) can hold all its operands
     run.stats["assembled_buffers"] = kinds.rule_K7(run, prog)
     prog.func("affine_transform")
+    # a constructed matrix is never normalised by one of its own entries (zero for legitimate maps): expected count zero, the positive example is a quick control
+    run.stats["self_divisions"] = kinds.rule_K11(run, prog)
     # a constructor never writes into process-wide state (module constants, class caches, objects handed out by memoised functions):
     # otherwise the NEXT constructor call changes what an earlier result maps points to
     from geolint import purity
